@@ -292,6 +292,12 @@ def regression_cases():
     for hn, body in helpers_:
         for fl in ([], ["--enable-cxx-namespaces"]):
             out.append(("ns-helper-%s%s" % (hn, "-ns" if fl else ""), "hpp", "namespace only_here { %s }\nnamespace other { struct Plain { int a; }; }\n" % body, fl))
+    # inline namespaces under every combination of the two namespace options: definitions and uses must agree on the path
+    inl = ("namespace lib { inline namespace v2 { struct Config { int a; }; enum Mode { M_A, M_B }; typedef Config cfg_t; } struct User { Config c; v2::Config *p; Mode m; cfg_t t; };\n"
+           " namespace deep { inline namespace v1 { struct D { v2::Config k; }; } D *get(); } }\ninline namespace top_inl { struct TI { int z; }; }\nstruct UsesTI { TI t; lib::User u; };\n")
+    for fl in ([], ["--conservative-inline-namespaces"], ["--enable-cxx-namespaces"], ["--conservative-inline-namespaces", "--enable-cxx-namespaces"],
+               ["--conservative-inline-namespaces", "--default-enum-style", "rust"], ["--disable-name-namespacing"]):
+        out.append(("inline-ns-%d" % len(out), "hpp", inl, fl))
     out.append(("ns-helper-union-field", "hpp", "namespace only_here { union U { int i; float f; }; struct HU { union U u; }; }\n",
                 ["--enable-cxx-namespaces", "--default-non-copy-union-style", "bindgen_wrapper", "--bindgen-wrapper-union", ".*"]))
     return out
